@@ -400,6 +400,13 @@ func raceScenario(c raceCase) func() vsched.Scenario {
 			in := remote.VerifWriterInbox(w1)
 			return in.VerifStatus() == 2 && in.VerifLen() == 0
 		})
+		// An inbox that reads "idle and empty" may still have its last worker between the CAS to idle and the
+		// re-check of the ring length: that goroutine is not managed and must be gone before the scheduler takes over.
+		waitUntil("inbox workers of the set-up gone", func() bool {
+			buf := make([]byte, 1<<18)
+			st := string(buf[:runtime.Stack(buf, true)])
+			return !strings.Contains(st, "actor.(*Inbox).process") && !strings.Contains(st, "actor.(*Inbox).run")
+		})
 		return vsched.Scenario{
 			Describe: raceDescribe,
 			Setup: func(s *vsched.Sched) {
